@@ -5,7 +5,7 @@ import random
 
 from .. import core, tlc
 
-POS = {"from", "target", "target_column", "collist", "alias_def", "next_stmt_from", "next_stmt_colref", "qualifier", "next_stmt_colref_after_rename"}
+POS = {"from", "target", "target_column", "collist", "alias_def", "next_stmt_from", "next_stmt_colref", "qualifier", "next_stmt_colref_after_rename", "table_qualifier"}
 INVS = ["WrittenIsFoundAgain", "SameSpellingSameEntity", "UnquotedCaseInsensitive", "QuotedKeepsCase", "PrintedAsNormalised", "EmitCase"]
 
 
@@ -51,6 +51,9 @@ def run(chk):
             rnd.shuffle(small)
             cs = small[:500] + big[:500]
         cases += cs
+        # quoted column names that contain a dot (one name all the same): the column cases again, where both spellings are quoted
+        cases += [dict(c, dotted=True) for c in cs if c["rpos"] in ("next_stmt_colref", "next_stmt_colref_after_rename")
+                  and c["wname"][0]["q"] != "none" and c["rname"][0]["q"] != "none"]
     pool = mp.Pool(16)
     try:
         res = pool.map(_chunk, chunks(cases, 64))
@@ -69,7 +72,7 @@ def run(chk):
     for i, (line, verdict) in sorted(v.items()):
         c, o = keep[i - 1]
         verd[verdict.split(":")[0]] = verd.get(verdict.split(":")[0], 0) + 1
-        chk.count([c["wname"], c["wpos"], c["rname"], c["rpos"]], nontrivial=any(p["q"] != "none" for p in list(c["wname"]) + list(c["rname"])))
+        chk.count([c["wname"], c["wpos"], c["rname"], c["rpos"], bool(c.get("dotted"))], nontrivial=any(p["q"] != "none" for p in list(c["wname"]) + list(c["rname"])))
         if verdict != "ok":
             chk.reject({"module": "Names", "clause": verdict.split(":")[0], "positions": verdict.split(":")[-1], "dialect": o["dialect"],
                         "quoted_mixed_or_upper": any(p["q"] != "none" and p["c"] != "low" for p in list(c["wname"]) + list(c["rname"]))},
